@@ -7,6 +7,8 @@ The same program is run through the real Manager and through the Coq model (Mode
 of fire / dispatch / handler invocation (with nesting depth) / stop / generator return / raise / flush entry is
 compared.  The oracle re-reads the property on the implementation log.
 
+A second case kind, `burst`, queues thousands of events (see run_burst) and compares a digest of the dispatch order.
+
 Definition used throughout (it is a definition, not a finding): the *fire order* of events that sat in the queue of a
 not yet registered component is their *arrival order in the root queue*, i.e. they count as fired at the moment of
 register(), in the order they were fired on that component, followed by the `registered` event.  The driver therefore
@@ -300,6 +302,106 @@ def est_steps(case):
     return 100 + 8 * len(case['prog']) + est_events(case) * (10 + worst)
 
 
+# ----------------------------------------------------------------------------- large bursts
+class c02job(Event):
+    """burst member"""
+
+
+class c02head(Event):
+    """first burst member; its handler fires c02urg"""
+
+
+class c02mark(Event):
+    """distinguished burst member"""
+
+
+class c02urg(Event):
+    """fired by the handler of c02head during the pass"""
+
+
+BURST_NAMES = {c02job: 0, c02mark: 1, c02urg: 2, c02head: 3}
+
+
+def digest(seq):
+    """dispatch order [(2*priority, id)] -> maximal runs of equal priority whose ids form an arithmetic progression,
+    [priority, first id, step, count]; the same greedy rule as Model/DispatchOrderObs.v digest_go"""
+    out, cur = [], None
+    for k, i in seq:
+        if cur is not None and k == cur[0] and (cur[3] == 1 or i == cur[1] + cur[2] * cur[3]):
+            if cur[3] == 1:
+                cur[2] = i - cur[1]
+            cur[3] += 1
+        else:
+            if cur is not None:
+                out.append(cur)
+            cur = [k, i, 0, 1]
+    if cur is not None:
+        out.append(cur)
+    return out
+
+
+def run_burst(c):
+    """n events queued from outside (priorities cyc[i mod len], marks at given positions, optionally a head whose
+    handler fires an urgent event), then `flushes` flush() calls.  Returns a small observable: the digest of the
+    dispatch order, the number of dispatches after each flush, the final queue length, and the verdict of the pass
+    rule (each pass = what was queued when it began, by ascending priority value then fire order) on the FULL log."""
+    log, late = [], []
+    n, cyc, marks, urgent = c['n'], c['cyc'], {p: k for p, k in c['marks']}, c['urgent']
+    prio = {}
+
+    class B(BaseComponent):
+        channel = 'c'
+
+        @handler('c02job', 'c02mark', 'c02urg')
+        def _on(self, event, *args):
+            log.append(event.c02_id)
+
+        @handler('c02head')
+        def _on_head(self, event, *args):
+            log.append(event.c02_id)
+            e = c02urg()
+            e.c02_id = n
+            prio[n] = urgent
+            late.append(n)
+            self.fire(e, priority=urgent)
+
+    root = B()
+    for _ in range(50):
+        if not len(root):
+            break
+        root.flush()
+    queued = []
+    for i in range(n):
+        if i in marks:
+            e, p = c02mark(), marks[i]
+        else:
+            e, p = (c02head() if (urgent is not None and i == 0) else c02job()), cyc[i % len(cyc)]
+        e.c02_id = i
+        prio[i] = p
+        queued.append(i)
+        root.fire(e, priority=p)
+    passes, rule = [], None
+    for j in range(c['flushes']):
+        before, at = list(queued), len(log)
+        del late[:]
+        root.flush()
+        got = log[at:]
+        want = sorted(before, key=lambda i: (prio[i], i))
+        if rule is None and got != want:
+            pos = next((x for x in range(min(len(got), len(want))) if got[x] != want[x]), min(len(got), len(want)))
+            rule = ('pass %d: %d events were queued when it began, %d were dispatched; at position %d of the pass event %s was '
+                    'dispatched, the order (ascending priority value, then fire order) requires event %s (priority %r)' % (
+                        j + 1, len(before), len(got), pos, got[pos] if pos < len(got) else None,
+                        want[pos] if pos < len(want) else None, prio[want[pos]] if pos < len(want) else None))
+        gs = set(got)
+        queued = [i for i in before if i not in gs] + list(late)
+        passes.append(len(log))
+    if rule is None and len(set(log)) != len(log):
+        rule = 'an event was dispatched twice'
+    return {'digest': digest([(key2(prio[i]), i) for i in log]), 'passes': passes, 'final': [0, 0, len(root)],
+            'pass_rule': rule}
+
+
 class C02(Prop):
     id = 'C02'
     props_file = 'Props/C02.v'
@@ -464,14 +566,37 @@ class C02(Prop):
             if est_events(case) <= (160 if tier == "thorough" else 45):
                 return case
 
+    def gen_burst(self, rng, n):
+        """a burst of n queued events: priorities follow a cycle of 1-3 distinct values; one or two distinguished events
+        at the batch-size boundaries / the end with a smaller or larger priority; optionally the first event's handler
+        fires an urgent event during the pass"""
+        cyc = rng.sample([-1, -0.5, 0, 0.5, 1, 2], rng.choice([1, 1, 2, 3]))
+        urgent = rng.choice([-7, -2.5, 0.5]) if rng.random() < 0.65 else None
+        spots = [p for p in {n - 1, n // 2, 1022, 1023, 1024, 1025, 2047, 2048, 4095, 4096, 1, 7} if (0 if urgent is None else 1) <= p < n]
+        marks = []
+        for p in rng.sample(sorted(spots), min(len(spots), rng.choice([1, 1, 2]))):
+            marks.append([p, rng.choice([min(cyc) - 1, min(cyc) - 2.5, max(cyc) + 1, cyc[0]])])
+        return {'k': 'burst', 'n': n, 'cyc': cyc, 'marks': sorted(marks), 'urgent': urgent, 'flushes': rng.choice([2, 3])}
+
     def generate(self, rng, n, tier):
         cases = []
         for i in range(n):
             cases.append(self.gen_one(rng, tier, 'drain' if rng.random() < 0.2 else 'prog'))
+        # large batches ("any number of events"): a handful per run, at the end of the list
+        big = [1000, 1023, 1024, 1025, 2048, 5000]
+        sizes = rng.sample(big, 4) + [rng.randint(8, 64) for _ in range(2)]
+        if tier == 'thorough':
+            sizes = big * 5 + [rng.randint(1026, 6000) for _ in range(10)] + [rng.randint(2, 64) for _ in range(20)]
+        for b in sizes:
+            cases.append(self.gen_burst(rng, b))
         return cases
 
     # ------------------------------------------------------------------ implementation driver
     def impl(self, c0):
+        if c0.get('k') == 'burst':
+            self.stats['burst_cases'] = self.stats.get('burst_cases', 0) + 1
+            self.stats['burst_events'] = self.stats.get('burst_events', 0) + c0['n']
+            return run_burst(c0)
         c = norm(c0)
         ctx = Ctx(c)
         root, child, dets = build(ctx, c)
@@ -605,6 +730,14 @@ class C02(Prop):
         return '[%s]' % '; '.join(out)
 
     def model_term(self, c0):
+        if c0.get('k') == 'burst':
+            zl = lambda l: '[%s]' % '; '.join('(%d)' % key2(x) for x in l)
+            marks = '[%s]' % '; '.join('(%d, (%d))' % (p, key2(k)) for p, k in c0['marks'])
+            urg = 'None' if c0['urgent'] is None else '(Some (%d))' % key2(c0['urgent'])
+            args = '%d%%N %s %s %s %d%%nat' % (c0['n'], zl(c0['cyc']), marks, urg, c0['flushes'])
+            if c0['n'] <= 64:         # small bursts run the machine itself; large ones its specification (C02_pass_exact)
+                return 'obs_burst %s 100000%%N' % args
+            return 'obs_burst_spec %s' % args
         key = common.canon(c0)
         if key not in self._sched:
             self.safe_impl(c0)
@@ -648,12 +781,18 @@ class C02(Prop):
     def obs_for_model(self, c, obs):
         if isinstance(obs, dict) and '__crash__' in obs:
             return [-999]
+        if c.get('k') == 'burst':
+            return [obs['digest'], obs['passes'], obs['final']]
         return [[pack(e) for e in obs['log'] if e[0] not in (3, 5)], obs['final']]
 
     # ------------------------------------------------------------------ oracle: the property read on the log
     def oracle(self, c0, obs):
         if isinstance(obs, dict) and '__crash__' in obs:
             return None
+        if c0.get('k') == 'burst':
+            if obs['pass_rule']:
+                return obs['pass_rule']
+            return 'queue not empty after the flushes' if obs['final'][2] else None
         c = norm(c0)
         log = obs['log']
         has_obs = c['obs']
@@ -801,6 +940,8 @@ class C02(Prop):
         return None
 
     def finding_class(self, c0, obs, what):
+        if c0.get('k') == 'burst':
+            return None
         """C02-multichannel-twice: a handler that matches several of the channels an event is delivered on (a '*'
         handler, '*' or a repeated channel among the channels) is invoked once per matching channel"""
         import re
@@ -818,6 +959,8 @@ class C02(Prop):
     def nontrivial(self, c, obs):
         if isinstance(obs, dict) and '__crash__' in obs:
             return False
+        if c.get('k') == 'burst':
+            return True
         log = obs['log']
         depth, inner_fire = 0, False
         for e in log:
@@ -832,6 +975,8 @@ class C02(Prop):
         return (inner_fire and mixed) or nested
 
     def search(self, rng, tier):
+        for b in (1025, 2048, 1024, 5000, 40):
+            yield self.gen_burst(rng, b)
         for i in range(3000):
             yield self.gen_one(rng, 'quick', 'drain' if i % 5 == 0 else 'prog')
 
